@@ -1,6 +1,7 @@
 import Pyxv.Model.Json
 import Pyxv.Model.OpsForm
 import Pyxv.Model.Controls
+import Pyxv.Model.TableList
 /-! Driver operations for the body-control attributes (C04, second half). -/
 namespace Pyxv.Controls
 open Lean Pyxv Pyxv.Rows Pyxv.Form
@@ -8,32 +9,42 @@ open Lean Pyxv Pyxv.Rows Pyxv.Form
 def ctlsToJson (cs : List Ctl) : Json :=
   Json.arr (cs.map fun (t, a) => Json.arr #[jstr t, pairsToJson a]).toArray
 
-def rowNumbered (f : Nat → Cells → List Dict) : Nat → List Cells → List Dict
-  | _, [] => []
-  | n, r :: rs => f n r ++ rowNumbered f (n + 1) rs
+def numbered (f : Nat → Cells → List Dict) : List (Nat × Cells) → List Dict
+  | [] => []
+  | (n, r) :: rs => f n r ++ numbered f rs
 
-/-- structural pipeline (`Form.formModel`) on the prepared rows + the flat list of control attributes -/
+def errJson (kind what : String) : Json :=
+  Json.mkObj [("outcome", "error"), ("err", Json.mkObj [("kind", Json.str kind), ("what", Json.str what)])]
+
+/-- table-list expansion, then the structural pipeline (`Rows.formOutN`, rendered as `Form.formModel` renders
+    `formOut`) on the prepared rows + the flat list of control attributes -/
 def controlsModel (root : Str) (lists : List Str) (rows : List Cells) (settings : Cells) : Json :=
   let unsup (w : String) := Json.mkObj [("outcome", "unsupported"), ("why", Json.str w)]
   if !triggersOk lists rows then unsup "trigger shape" else
-  match allControls lists 2 rows with
+  let nrows := TableList.sheetRows rows
+  let prows := nrows.map fun nr => (nr.1, (prep nr.2).1)
+  match allControlsN lists nrows with
   | .error (.unsup w) => unsup w
   | .error (.err w) =>
     -- an unsupported row elsewhere dominates
-    (match classifyAll lists 2 (rows.map fun r => (prep r).1) with
+    (match classifyNum lists prows with
      | .error w' => unsup w'
-     | .ok _ => Json.mkObj [("outcome", "error"), ("err", Json.mkObj [("kind", "controls"), ("what", Json.str w)])])
+     | .ok _ => errJson "controls" w)
   | .ok cs =>
-    let rows' := rows.map fun r => (prep r).1
-    if (match formOut root lists rows' settings with | .ok o => emptySecL o.items | .error _ => false) then
-      Json.mkObj [("outcome", "error"), ("err", Json.mkObj [("kind", "emptySection")])]
-    else
-    let base := formModel root lists rows' settings
-    match base.getObjVal? "outcome" with
-    | .ok (.str "ok") =>
-      base.setObjVal! "ctlAttrs" (ctlsToJson cs)
-        |>.setObjVal! "specAttrs" (Json.arr ((rowNumbered (Spec.rowSpecs lists) 2 rows).map pairsToJson).toArray)
-    | _ => base
+    match TableList.formOutT root lists rows settings with
+    | .error (.unsupported w) => unsup w
+    | .error (.err e) => Json.mkObj [("outcome", "error"), ("err", errToJson e)]
+    | .error (.unknownType n) => Json.mkObj [("outcome", "error"), ("err", Json.mkObj [("kind", "unknownType"), ("row", n)])]
+    | .ok o =>
+      if emptySecL o.items then errJson "emptySection" ""
+      else
+      Json.mkObj [("outcome", "ok"), ("instance", ntToJson o.inst), ("binds", pathsToJson o.binds),
+        ("body", pathsToJson o.body),
+        ("ctl", Json.arr (o.ctl.map fun (t, p) => Json.arr #[jstr t, jstr (xpathStr p)]).toArray),
+        ("closed", Json.bool ((o.binds ++ o.body).all (resolves o.inst))),
+        ("ctlAttrs", ctlsToJson cs),
+        ("specAttrs", Json.arr ((numbered (Spec.rowSpecs lists) nrows).map pairsToJson).toArray),
+        ("expanded", Json.bool (nrows.length != rows.length))]
 
 def opsControls (op : String) (j : Json) : Option (Except String Json) :=
   match op with
